@@ -367,6 +367,36 @@ def replay(rec):
             if not between and abs(ivar[j]) > 1e-9:
                 return True
         return False
+    if d.get('fn') == 'preprocess':
+        import pydl.pydlspec2d.spec1d as spec1d
+        nobj, npix = d['nobj'], 5
+        zs = [0.1 * (o + 1) for o in range(nobj)]
+        fl = np.array([[_f(inp.get('f%d_%d' % (o, i), 1)) for i in range(npix)] for o in range(nobj)])
+        iv = np.array([[_f(inp.get('iv%d_%d' % (o, i), 1)) for i in range(npix)] for o in range(nobj)])
+        loglam = np.array([3.5 + 1e-4 * i for i in range(npix)])
+        newloglam = np.array([3.45 + 1e-4 * i for i in range(6)])
+        seen = []
+
+        def recorder(inloglam, objflux, newll, objivar=None, **kw):
+            seen.append((np.asarray(inloglam, dtype=float).copy(), np.asarray(objflux, dtype=float).copy()))
+            return np.zeros(len(newll)), np.zeros(len(newll))
+        saved2 = spec2d.combine1fiber
+        saved1 = spec1d.__dict__.get('combine1fiber')
+        spec2d.combine1fiber = recorder
+        if saved1 is not None:
+            spec1d.combine1fiber = recorder
+        try:
+            spec1d.preprocess_spectra(fl.copy(), iv.copy(), loglam=loglam.copy(), zfit=np.array(zs), newloglam=newloglam)
+        finally:
+            spec2d.combine1fiber = saved2
+            if saved1 is not None:
+                spec1d.combine1fiber = saved1
+        if len(seen) != nobj:
+            return True
+        for o, (il, ofl) in enumerate(seen):
+            if np.abs(il - (loglam - np.log10(1 + zs[o]))).max() >= 1e-12 or np.abs(ofl - fl[o]).max() > 0:
+                return True
+        return False
     if d.get('fn') not in ('combine', 'scaling'):
         return False
     inl, newl = GRIDS[d['grid']]
